@@ -19,7 +19,9 @@ def build_dataset():
     from pydap.handlers.lib import IterData
     from pydap.model import BaseType, DatasetType, GridType, SequenceType, StructureType
     ds = DatasetType("d", title="isolation", history=["a", "b"])
-    ds["x"] = BaseType("x", np.arange(24, dtype="i4").reshape(2, 3, 4), units="m")
+    # array-valued attributes (a 2-D table, a vector of 40 levels): metadata responses print them through numpy
+    ds["x"] = BaseType("x", np.arange(24, dtype="i4").reshape(2, 3, 4), units="m", corners=np.arange(8.0).reshape(2, 4),
+                       levels=np.linspace(0.0, 975.0, 40))
     # float64 data holding the value its _FillValue attribute names (a function must not write into what is served)
     ds["f"] = BaseType("f", np.linspace(0, 1, 6).reshape(2, 3), attributes={"valid": [0.0, 1.0], "_FillValue": 0.2})
     ds["s"] = BaseType("s", np.array(["ab", "c", ""]))
@@ -84,7 +86,7 @@ def snapshot(var):
 
 
 REQUESTS = [
-    "/d.dds", "/d.das", "/d.dods", "/d.ascii", "/d.ver",
+    "/d.html", "/d.html?x", "/d.dds", "/d.das", "/d.dods", "/d.ascii", "/d.ver",
     "/d.dods?x[0:1][1:2][0:2:3]", "/d.dds?x[0:0]", "/d.ascii?f[1][0:1]", "/d.dods?g[0:1][1:3]", "/d.dods?g.a[1:2],g.y", "/d.dds?st.m",
     "/d.dods?st.m[1:2],s", "/d.dods?q", "/d.dods?q.c,q.a", "/d.ascii?q&q.a>1", "/d.dods?q.a&q.a>1&q.b<5", "/d.dods?q[1:2]",
     "/d.dods?lz", "/d.ascii?lz&lz.k>1", "/d.dods?lz.v&lz.k<3", "/d.dods?lz[1:3]", "/d.das?x[0:0]",
@@ -199,6 +201,15 @@ def main():
         def __missing__(self, u):
             self[u] = fetch(fresh_app(), u)
             return self[u]
+    def build_e():
+        import numpy as np
+        from pydap.model import BaseType, DatasetType
+        e = DatasetType("e", title="levels and corners")
+        e["t"] = BaseType("t", np.arange(12, dtype="<f4").reshape(3, 4), dims=("z", "x"), units="K",
+                          corners=np.arange(8.0).reshape(2, 4), levels=np.linspace(0.0, 975.0, 40))
+        return BaseHandler(e)
+    RE = ["/e.dmr", "/e.html", "/e.dds", "/e.das", "/e.dods?t[0:1][1:2]", "/e.ascii?t", "/e.dmr?t"]
+    base_e = {u: fetch(build_e(), u) for u in RE}          # /e.dmr first: before this process has served any DAS of it
     baseline = Baseline()
     for u in REQUESTS:
         baseline[u]
@@ -316,6 +327,32 @@ def main():
         if snapshot(ds) != before:
             direct.append({"law": "the served dataset is unchanged after concurrent requests", "requests": urls})
 
+    # ---- (3b) a dataset of arrays with array-valued attributes, which also has a DMR: metadata responses print such attributes
+    for h in range(6 if T == "quick" else 60):
+        app_e = build_e()
+        hist = [rng.choice(RE) for _ in range(rng.randint(3, 7))]
+        for pos, u in enumerate(hist):
+            got = fetch(app_e, u)
+            r.count(("history-e", h, pos, u, tuple(hist[:pos])))
+            if got != base_e[u]:
+                direct.append({"law": "a response is a function of the served dataset and the request alone, whatever was served before",
+                               "request": u, "served_before": hist[:pos], "body": repr(got[2])[:300], "fresh_body": repr(base_e[u][2])[:300]})
+                break
+    for u in reversed(RE):
+        if fetch(build_e(), u) != base_e[u]:
+            direct.append({"law": "the response of a freshly built application to a request is the same at the start and at the end of "
+                                  "the run (nothing served in between is remembered outside the application)", "request": u})
+            break
+    # ---- (4) the answer of a FRESH application does not depend on what this process has served meanwhile (state kept outside
+    # the application object: module globals, caches, library-wide settings)
+    for u in reversed(list(REQUESTS)):
+        r.count(("fresh-again", u))
+        again = fetch(fresh_app(), u)
+        if again != baseline[u]:
+            direct.append({"law": "the response of a freshly built application to a request is the same at the start and at the end of "
+                                  "the run (nothing served in between is remembered outside the application)",
+                           "request": u, "status": str(again[0]), "body_now": repr(again[2])[:300], "body_at_start": repr(baseline[u][2])[:300]})
+            break
     r.extra["distribution"] = stats
     r.cov["rule"] = ("(a) histories of 3-9 requests drawn from %d requests (all response kinds, projections, hyperslabs, selections on numpy "
                      "and lazy sequences, server-side functions alone / nested / beside projections, malformed requests) against one "
